@@ -239,8 +239,11 @@ def check(case):
     f = []
     for hs in case['hashseeds']:
         env = dict(os.environ, PYTHONHASHSEED=str(hs))
-        p = subprocess.run([sys.executable, '-m', 'pv.props.c17_worker', path], env=env, stdout=subprocess.PIPE, stderr=subprocess.PIPE,
-                           timeout=600, cwd=ROOT)
+        try:
+            p = subprocess.run([sys.executable, '-m', 'pv.props.c17_worker', path], env=env, stdout=subprocess.PIPE, stderr=subprocess.PIPE,
+                               timeout=600, cwd=ROOT)
+        except subprocess.TimeoutExpired:
+            continue        # inconclusive, never a violation
         if p.returncode != 0:
             f.append(('worker-failed', 'PYTHONHASHSEED=%s: %s' % (hs, p.stderr.decode('utf-8', 'replace')[-600:])))
             break
